@@ -413,6 +413,24 @@ func c19PassThrough(r *Run) {
 			}
 		}
 		r.Check(okN, "pass-through", "FileRef."+spec.m+": returns the host call's byte count", c.Pos(), "the count returned is not the host's")
+		// the host call is made on every path: a return it does not dominate is allowed only for an empty buffer
+		fa := p.FA(fn)
+		lp := fa.linSym(lenOf(fa.Sym(fn.Params[2])), 0)
+		always := true
+		var where token.Pos = c.Pos()
+		for _, ret := range returnsOf(fn) {
+			if c.Block().Dominates(ret.Block()) {
+				continue
+			}
+			if lp != nil && EntailsLE(fa.FactsAt(ret, lp), lp, linConst(0)) {
+				continue
+			}
+			always = false
+			if ret.Pos().IsValid() {
+				where = ret.Pos()
+			}
+		}
+		r.Check(always, "pass-through", "FileRef."+spec.m+": the host call is made on every path (except for an empty buffer)", where, "a path returns without asking the host: what the fid reads or writes can differ from the host file")
 	}
 }
 
